@@ -374,6 +374,16 @@ func dataDeps(v ssa.Value) map[ssa.Value]bool {
 							if x.Addr == a {
 								walk(x.Val)
 							}
+						case ssa.CallInstruction:
+							// the object's address is handed to a callee (b.WriteString(s), json.Unmarshal(data, &v)):
+							// the callee may write its other arguments into the object
+							if depth == 0 {
+								for _, arg := range x.Common().Args {
+									if arg != a {
+										walk(arg)
+									}
+								}
+							}
 						case *ssa.IndexAddr:
 							visitAddr(x, depth+1)
 						case *ssa.FieldAddr:
